@@ -10,7 +10,7 @@ Everything the C16 theorems lean on is read from the AST here:
   * metrics.py            callback names given to Timer, default class of count_exceptions
   * the three __call__s   name of the first parameter of `wrapped(func, *args, **kwargs)` and whether it is positional-only
                           (a forwarded keyword of that name collides with it)
-  * decorator.py          reserved names, lambda rename, `%s=None` / `%s=%s` kw-only templates, the body template
+  * decorator.py          refusal of non-function callables (`func.__name__`, `inspect.isfunction`, TypeError); reserved names, lambda rename, `%s=None` / `%s=%s` kw-only templates, the body template
 """
 import ast
 from leanlit import *
@@ -30,13 +30,14 @@ deriving DecidableEq, Repr
 
 DEFAULTS = dict(
     timerClampFn='none', timerClampLit=0, timerNowMinusStart=True, timerCallbackWhen='never',
-    timerExitSuppresses=False, timerEnterReadsClock=False, timerCallFresh=False, newTimerIsNew=False,
+    timerExitSuppresses=False, timerCallFresh=False, newTimerIsNew=False,
     excTest='never', excSuppressWhenCounted=False, excSuppressOtherwise=False, excCallWithSelf=False,
     inprogressIncWhen='never', inprogressDecWhen='never', inprogressExitSuppresses=False, inprogressCallWithSelf=False,
     gaugeTimeCallback='', summaryTimeCallback='', histogramTimeCallback='', countExcDefault='',
     countExcChecksObservable=False, trackInprogressChecksObservable=False, timeChecksObservable=False,
     reservedNames=[], lambdaName='', lambdaRename='', kwonlySigFmt='', kwonlyShortFmt='', bodyTemplate='',
     defTemplate='', sigJoin='', posonlyMarkerEmitted=False, callerFuncParam='', callerFuncPosOnly=False,
+    makerReadsDunderName=False, makerRefusesNonFunctions=False,
 )
 
 
@@ -52,7 +53,6 @@ def _emit(v, fails):
     out += 'def timerNowMinusStart : Bool := %s\n' % b(v['timerNowMinusStart'])
     out += 'def timerCallbackWhen : When := .%s\n' % v['timerCallbackWhen']
     out += 'def timerExitSuppresses : Bool := %s\n' % b(v['timerExitSuppresses'])
-    out += 'def timerEnterReadsClock : Bool := %s\n' % b(v['timerEnterReadsClock'])
     out += 'def timerCallFresh : Bool := %s\n' % b(v['timerCallFresh'])
     out += 'def newTimerIsNew : Bool := %s\n' % b(v['newTimerIsNew'])
     out += 'def excTest : ExcTest := .%s\n' % v['excTest']
@@ -71,6 +71,8 @@ def _emit(v, fails):
     for k in ('lambdaName', 'lambdaRename', 'kwonlySigFmt', 'kwonlyShortFmt', 'bodyTemplate', 'defTemplate', 'sigJoin'):
         out += 'def %s : List Char := %s\n' % (k, chars(v[k]))
     out += 'def posonlyMarkerEmitted : Bool := %s\n' % b(v['posonlyMarkerEmitted'])
+    out += 'def makerReadsDunderName : Bool := %s\n' % b(v['makerReadsDunderName'])
+    out += 'def makerRefusesNonFunctions : Bool := %s\n' % b(v['makerRefusesNonFunctions'])
     out += 'def callerFuncParam : List Char := %s\n' % chars(v['callerFuncParam'])
     out += 'def callerFuncPosOnly : Bool := %s\n' % b(v['callerFuncPosOnly'])
     return out + footer(TARGET)
@@ -232,8 +234,8 @@ def timer(tree, v):
     top, nested = _truthy_returns(ex, 'Timer.__exit__')
     v['timerExitSuppresses'] = top or any(t for _, _, t in nested)
     en = find_func(tree, '__enter__', 'Timer')
-    v['timerEnterReadsClock'] = any(isinstance(s, ast.Assign) and ast.unparse(s) == 'self._start = default_timer()' for s in en.body)
-    if not v['timerEnterReadsClock']: raise Fail('`self._start = default_timer()` not found in Timer.__enter__')
+    if not any(isinstance(s, ast.Assign) and ast.unparse(s) == 'self._start = default_timer()' for s in en.body):
+        raise Fail('`self._start = default_timer()` not found in Timer.__enter__')
     nt = find_func(tree, '_new_timer', 'Timer')
     v['newTimerIsNew'] = (len(nt.body) == 1 and ast.unparse(nt.body[0]) == 'return self.__class__(self._metric, self._callback_name)')
     if not v['newTimerIsNew']: raise Fail('_new_timer does not construct a new Timer')
@@ -326,6 +328,21 @@ def factories(mtree, v):
 def decorator_site(dtree, v):
     fm = find_func(dtree, '__init__', 'FunctionMaker')
     src = ast.unparse(fm)
+    # non-function callables: `self.name = func.__name__` is read before anything else (AttributeError without it); the
+    # signature is built only under `if inspect.isfunction(func):`; without a signature `TypeError` is raised
+    iff = [n for n in fm.body if isinstance(n, ast.If) and ast.unparse(n.test) == 'func']
+    if len(iff) != 1: raise Fail('FunctionMaker.__init__: `if func:` not found')
+    first = [x for x in iff[0].body if not (isinstance(x, ast.Expr) and isinstance(x.value, ast.Constant))][0]
+    v['makerReadsDunderName'] = ast.unparse(first) == 'self.name = func.__name__'
+    if not v['makerReadsDunderName']: raise Fail('FunctionMaker.__init__: does not start with self.name = func.__name__')
+    guard = [n for n in iff[0].body if isinstance(n, ast.If) and ast.unparse(n.test) == 'inspect.isfunction(func)']
+    sigs = [n for n in ast.walk(fm) if isinstance(n, ast.Assign) and any('self.signature' in ast.unparse(t) for t in n.targets)
+            and ast.unparse(n.value) != 'signature']
+    inside = guard and all(any(x is n for x in ast.walk(guard[0])) for n in sigs)
+    tail = [n for n in fm.body if isinstance(n, ast.If) and ast.unparse(n.test) == "not hasattr(self, 'signature')"
+            and len(n.body) == 1 and isinstance(n.body[0], ast.Raise) and ast.unparse(n.body[0].exc).startswith('TypeError(')]
+    v['makerRefusesNonFunctions'] = bool(len(guard) == 1 and sigs and inside and len(tail) == 1)
+    if not v['makerRefusesNonFunctions']: raise Fail('FunctionMaker.__init__: isfunction guard / TypeError for non functions not found')
     # lambda rename
     ren = [n for n in ast.walk(fm) if isinstance(n, ast.If) and ast.unparse(n.test).startswith('self.name == ')]
     if len(ren) != 1 or len(ren[0].body) != 1: raise Fail('lambda rename site')
